@@ -26,7 +26,9 @@ RULE = ('S1: every assignment of a body from a generated menu (role leaf, '
         'rule set; non-trivial = at least one reference.')
 RULE += (
          ' Every S1 rule set is validated again with'
-         ' Enforcer.skip_undefined_check on (problem iff cycle).')
+         ' Enforcer.skip_undefined_check on (problem iff cycle).'
+         ' S4 also validates rule sets on enforcers that have registered'
+         ' defaults which are not part of the rules in force.')
 ASSUMPTIONS = ['names <= 4 (menu^names growth) instead of ~6; cycles up to '
                'length 4 plus chains entering them',
                'R-graph: iterative DFS with colours over edges taken from '
@@ -280,6 +282,37 @@ def run_updates(acc, P):
                         not (undefined or cyc), got, 'S4')
                 acc.outcome('undefined=%s cycle=%s' % (undefined, cyc))
     acc.sample('S4', {'rules': rules0, 'update': [name, body, how]})
+    # registered defaults that are NOT part of the rule set in force (rules
+    # installed with set_rules, nothing loaded from configuration): a
+    # reference to such a name is undefined - it evaluates as undefined
+    for regs in (('reg',), ('reg', 'a'), ('zz',)):
+        for start in itertools.product(bodies[:1] + ['rule:reg',
+                                                     'not rule:reg',
+                                                     'rule:b and rule:reg',
+                                                     'rule:zz'], repeat=2):
+            rules0 = dict(zip(('a', 'b'), start))
+            if not c06.acyclic(rules0, None):
+                continue
+            enf = world.bare_enforcer()
+            enf.register_defaults([P.RuleDefault(n, '@') for n in regs])
+            world.set_rules(enf, rules0)
+            undefined, cyc = graph_problem(rules0)
+            acc.case('S4', True)
+            acc.ev()
+            try:
+                got = enf.check_rules()
+            except Exception as e:
+                got = 'raises %s' % type(e).__name__
+            if got != (not (undefined or cyc)):
+                acc.violation(
+                    'S4|registered-not-in-force|%s' % (
+                        'missed' if (undefined or cyc) else 'false-alarm'),
+                    'rules in force %r, registered but not in force %r: '
+                    'check_rules() returned %r; undefined=%s cycle=%s' %
+                    (rules0, regs, got, undefined, cyc),
+                    {'rules': rules0, 'registered': list(regs)},
+                    not (undefined or cyc), got, 'S4')
+            acc.outcome('undefined=%s cycle=%s' % (undefined, cyc))
     return acc.result()
 
 
